@@ -123,6 +123,11 @@ def build_corpus(fam, tier, seed, grammars=None):
     cdir = os.path.join(d, "corpus")
     key = "corpus:%s:%s:%s" % (tool_hash(), tier, seed)
     gs = grammars if grammars is not None else families.family(fam, tier, seed)
+    if grammars is not None:
+        # an explicit member list (C03 drops members that do not compile and rebuilds): the cached corpus
+        # must be this very list
+        import hashlib
+        key += ":" + hashlib.sha1("\n".join("%s %s" % (g.id, g.meta.get("shape")) for g in gs).encode("utf-8")).hexdigest()[:16]
     if cached(d, "corpus", key) and os.path.exists(os.path.join(cdir, "cases.tsv")):
         return cdir, gs
     if os.path.isdir(cdir):
